@@ -1,0 +1,33 @@
+/*--------------------------------------------------------*\
+|                                                          |
+|                          hprose                          |
+|                                                          |
+| Official WebSite: https://hprose.com                     |
+|                                                          |
+| io/count.go                                              |
+|                                                          |
+\*________________________________________________________*/
+
+package io
+
+import "strconv"
+
+// checkCount validates an element count read from the wire before it sizes an
+// allocation or bounds a loop. A count can not be negative, and when the whole
+// input is in memory (no reader) it can not exceed the number of bytes left,
+// because every element takes at least one byte. An invalid count is a decode
+// error and is replaced by 0.
+func (dec *Decoder) checkCount(count int) int {
+	if count < 0 || (dec.reader == nil && count > dec.tail-dec.head) {
+		if dec.Error == nil {
+			dec.Error = DecodeError("hprose/io: invalid element count " + strconv.Itoa(count))
+		}
+		return 0
+	}
+	return count
+}
+
+// ReadCount reads an element count (see ReadInt) and validates it.
+func (dec *Decoder) ReadCount() int {
+	return dec.checkCount(dec.ReadInt())
+}
